@@ -126,6 +126,7 @@ def check(prog, rep):
     if not grouping:
         rule_models(prog, rep)
     rule_water(prog, rep)
+    rule_altname_tables(prog, rep)
 
 
 def ingestion_decided_on_models(prog, rep, rid, only=None):
@@ -765,6 +766,30 @@ def rule_water(prog, rep):
         if isinstance(st, ast.Assign) and U(st.targets[0]) == "water_residue_names":
             wn = try_fold(st.value)
     r.add("water-names", wn is not None and set(wn) == {"HOH", "WAT"}, f"water residue names: {wn}", "pdb2pqr/aa.py (WAT)")
+
+
+def rule_altname_tables(prog, rep):
+    """Alternative atom names are applied before the 'already present' test of the residue constructors: if one of them points at the wrong atom,
+    two records of the input end up under one name and the second is dropped.  Sibling cross-check on the nucleotide table, where every residue
+    spells the shared atoms alike: an alternative name denotes the same atom in every nucleotide, and never the plain name of another atom."""
+    from ..tables import Tables
+    r = rep.rule("R13", "alternative atom names of the nucleotide table denote one atom each (sibling cross-check)", floor=20)
+    t = Tables(prog.root)
+    seen = {}
+    for rname, ref in t.na.items():
+        for an, at in ref.atoms.items():
+            for alt in at.altnames:
+                seen.setdefault(alt, {}).setdefault(an, []).append(rname)
+    for alt, targets in sorted(seen.items()):
+        ok = len(targets) == 1
+        minority = min(targets.items(), key=lambda kv: len(kv[1])) if not ok else None
+        r.add(f"altname|{alt}", ok, f"{alt!r} -> {next(iter(targets))!r} in {sum(len(v) for v in targets.values())} nucleotide(s)" if ok else
+              f"{alt!r} denotes {({k: len(v) for k, v in targets.items()})}: in {minority[1]} it renames the record to {minority[0]!r}, which collides with that atom's "
+              "own record - one of the two is dropped", "pdb2pqr/dat/NA.xml")
+    for rname, ref in t.na.items():
+        clash = [(alt, an) for an, at in ref.atoms.items() for alt in at.altnames if alt in ref.atoms and alt != an]
+        if clash:
+            r.bad(f"altname-is-a-name|{rname}", f"alternative names that are themselves atom names of the residue: {clash}", "pdb2pqr/dat/NA.xml")
 
 
 def reader_on_model(prog, r):
